@@ -374,6 +374,36 @@ def active_unit(unit: Tuple[Tuple[Tuple[str, ...], ...], int]) -> Part:
     return part
 
 
+def active_len_unit(unit: Tuple[int, int]) -> Part:
+    """(e') the active decoder on one telegram of a given length: every first frame is answered with clear-to-send,
+    whatever the announced length up to the 12-bit maximum, and the telegram is reported."""
+    from odxtools.isotp_state_machine import IsoTpActiveDecoder
+    n, tx_dl = unit
+    part = Part()
+    bus = FakeBus()
+    dec = IsoTpActiveDecoder(bus, [IDS[0]], [0x7E0])  # type: ignore[arg-type]
+    payload = pattern(n, 3)
+    got: List[bytes] = []
+    case = {"mode": "active-len", "len": n, "tx_dl": tx_dl}
+    part.count("active_decoder_runs")
+    part.add("nontrivial", ("active-len", tx_dl, size_class(n, tx_dl)))
+    for f in segment(payload, tx_dl, None):
+        before = len(bus.sent)
+        try:
+            got += [bytes(t) for _, t in dec.decode_rx_frame(IDS[0], f)]
+        except Exception as e:  # noqa
+            part.violation("C12/active/raises", case, f"{type(e).__name__}: {e}")
+            return part
+        if f[0] >> 4 == 1:
+            part.count("first_frames_answered_checked")
+            new = bus.sent[before:]
+            if not any(cid == 0x7E0 and len(d) >= 3 and d[0] == 0x30 for cid, d in new):
+                part.violation("C12/active/first-frame-not-answered", case, f"length {n}: sent {[(hex(c), fh(d)) for c, d in new]}")
+    if got != [payload]:
+        part.violation("C12/active/wrong-telegrams", case, f"length {n}: {[len(t) for t in got]}")
+    return part
+
+
 # ---------------------------------------------------------------------------------------------
 def lengths_for(tx_dl: int, quick: bool) -> List[int]:
     if not quick:
@@ -456,6 +486,8 @@ def run(ctx: Ctx) -> None:
             aunits.append((((a,), (b,)), 0))
             aunits.append((((a, b), (b, a)), 8))
     pmap(ctx, active_unit, aunits, chunksize=4)
+    alens = sorted({8, 9, 255, 256, 257, 4093, 4094, 4095} | (set(range(1, 4096, 97)) if q else set(range(1, 4096, 7))))
+    pmap(ctx, active_len_unit, [(n, tx_dl) for n in alens for tx_dl in (8, 64)], chunksize=8)
     c = ctx.counts
     c["evaluations"] = c.get("single_id_telegrams", 0) + c.get("telegram_sequences", 0) + c.get("interleaving_transitions", 0) + \
         c.get("text_streams", 0) + c.get("active_decoder_runs", 0)
@@ -480,6 +512,8 @@ def replay(case: Any) -> List[Tuple[str, str]]:
         p = seq_unit((case["tx_dl"], tuple(case["lens"])))
     elif mode == "text":
         p = text_unit((case["tx_dl"], tuple(case["lens"]), case["fmt"], case.get("noise", False)))
+    elif mode == "active-len":
+        p = active_len_unit((case["len"], case["tx_dl"]))
     elif mode == "active":
         p = active_unit((tuple(tuple(c) for c in case["combo"]), case["padding"]))
     else:
